@@ -723,8 +723,16 @@ type smtpGen struct {
 	bigBody bool
 }
 
+// recipients written without a domain part (RFC 5321 knows exactly one: the reserved "postmaster"), and with a source route
+var smtpBareLocals = []string{"postmaster", "Postmaster", "POSTMASTER", "abuse", "alice", "root", "MAILER-DAEMON"}
+
 func (g *smtpGen) addr() string {
 	d := g.domainPool()
+	if x := g.r.Intn(100); x < 5 {
+		return smtpBareLocals[g.r.Intn(len(smtpBareLocals))]
+	} else if x < 8 {
+		return "@relay.example:" + smtpLocals[g.r.Intn(5)] + "@" + d[g.r.Intn(4)]
+	}
 	l := smtpLocals[g.r.Intn(len(smtpLocals))]
 	if g.r.Intn(100) < 70 {
 		l = smtpLocals[g.r.Intn(5)] // mostly well-formed local parts
